@@ -91,8 +91,10 @@ func (d *DBFT[H]) checkPreCommit() {
 	// 1) we need to filter out WatchOnly nodes;
 	// 2) CNs that have not sent PreCommit must not skip this stage (although it's OK
 	//    from the DKG/TPKE side to build final Block based only on other CN's data).
+	// Commits received before PreBlock processing could not be verified (there
+	// was no header), do it now irrespective of our own PreCommit presence.
+	d.verifyCommitPayloadsAgainstHeader()
 	if d.PreCommitSent() {
-		d.verifyCommitPayloadsAgainstHeader()
 		d.sendCommit()
 		d.changeTimer(d.timePerBlock)
 		d.checkCommit()
